@@ -14,7 +14,7 @@ pub fn prop() -> Prop {
     Prop {
         id: "C09",
         level: "model_checking",
-        rule: "all streams of <=3 rows {k,v,id} over the 12 group keys {\"a\",\"b\",\"\",\"é\",1,null,absent,\"ab\",\"null\",[\"a\"], a key ending in a backslash, a key holding backslash-t} and of 4 (thorough <=6) rows over a 7-key core of them (including the empty stream and streams whose every row is dropped) x 16 upstream pipelines (--skip 1 --take 2^64-1; --unique on a selection without the key; two selections under one name; take 35 and skip 3 take 100 among them; none, select, select of the key only (so that rows repeat), filter, unique, sort by id desc, sort by the mixed-type key, skip+take, split, take 0, select+sort+skip+take) x {--group-by=.k, --group-by=(get . \"k\"), --merge} x {json, text output}; long cyclic streams of 17, 40, 300 and 1100 rows; streams with 15..257 distinct keys each coming back; non-trivial = two rows share a key or a row is dropped for its key; distinct by construction",
+        rule: "all streams of <=3 rows {k,v,id} over the 12 group keys {\"a\",\"b\",\"\",\"é\",1,null,absent,\"ab\",\"null\",[\"a\"], a key ending in a backslash, a key holding backslash-t} and of 4 (thorough <=6) rows over a 7-key core of them (including the empty stream and streams whose every row is dropped) x 16 upstream pipelines (--skip 1 --take 2^64-1; --unique on a selection without the key; two selections under one name; take 35 and skip 3 take 100 among them; none, select, select of the key only (so that rows repeat), filter, unique, sort by id desc, sort by the mixed-type key, skip+take, split, take 0, select+sort+skip+take) x {--group-by=.k, --group-by=(get . \"k\"), --group-by=.k#0 (a key selection with an index step), --merge} x {json, text output}; long cyclic streams of 17, 40, 300 and 1100 rows; streams with 15..257 distinct keys each coming back; non-trivial = two rows share a key or a row is dropped for its key; distinct by construction",
         explanation: "exactly one value must be printed, after the input ended; it is compared (a) with the documented grouping applied to the rows the same pipeline prints without grouping (differential) and (b) with the reference pipeline",
         assumptions: COMMON_ASSUMPTIONS.to_vec(),
         guards: vec!["command-line-respelled", "many-distinct-keys", "empty-input", "no-row-survives", "non-string-key-dropped", "absent-key-dropped", "two-rows-share-a-key", "limiter-before-grouper", "empty-string-key", "non-ascii-key", "text-output"],
@@ -110,7 +110,7 @@ fn explore(ctx: &mut Ctx, up: &Up, rows: &[V]) {
     } else if r.is_empty() {
         ctx.guard("no-row-survives");
     }
-    let groupers: [(&str, Group); 3] = [("group-by", Group::By(p(".k"))), ("group-by-get", Group::By(p("(get . \"k\")"))), ("merge", Group::Merge)];
+    let groupers: [(&str, Group); 4] = [("group-by", Group::By(p(".k"))), ("group-by-get", Group::By(p("(get . \"k\")"))), ("merge", Group::Merge), ("group-by-index-step", Group::By(p(".k#0")))];
     for (gname, g) in &groupers {
         for text in [false, true] {
             let mut cfg = up.cfg.clone();
